@@ -338,7 +338,7 @@ pub fn model_batch(driver: &str, workers: usize, mk: &(dyn Fn(usize, &str) -> St
     let mut tables: Vec<Vec<String>> = vec![vec![]; n];
     let mut out: Vec<Option<ModelReply>> = (0..n).map(|_| None).collect();
     let mut pending: Vec<usize> = (0..n).collect();
-    for _round in 0..12 {
+    for _round in 0..24 {
         if pending.is_empty() {
             break;
         }
@@ -349,21 +349,33 @@ pub fn model_batch(driver: &str, workers: usize, mk: &(dyn Fn(usize, &str) -> St
         for (k, &i) in pending.iter().enumerate() {
             let rep = &replies[k];
             let first = rep.split('\t').next().unwrap_or("");
-            // a frontier outcome anywhere in the first field (single result or outcomes list)
-            if let Some(pos) = first.find("(frontier ") {
-                let sub = &first[pos..];
-                let answered = sexp::parse(sub).and_then(|sx| oracle::answer(&sx));
-                match answered {
-                    Some(q) if !tables[i].contains(&q) => {
-                        tables[i].push(q);
-                        next.push(i);
-                        continue;
+            // frontier outcomes anywhere in the first field (single result or outcomes list): every one of them is answered
+            // in this round (a ruleset of 40 rules may ask 40 questions)
+            if first.contains("(frontier ") {
+                let mut added = false;
+                let mut stuck = false;
+                let mut from = 0;
+                while let Some(off) = first[from..].find("(frontier ") {
+                    let pos = from + off;
+                    let sub = &first[pos..];
+                    match sexp::parse(sub).and_then(|sx| oracle::answer(&sx)) {
+                        Some(q) => {
+                            if !tables[i].contains(&q) {
+                                tables[i].push(q);
+                                added = true;
+                            }
+                        }
+                        None => stuck = true,
                     }
-                    _ => {
-                        out[i] = Some(ModelReply { reply: rep.clone(), oracle_used: tables[i].len(), unanswered: true });
-                        continue;
-                    }
+                    from = pos + 10;
                 }
+                if added {
+                    next.push(i);
+                } else {
+                    let _ = stuck;
+                    out[i] = Some(ModelReply { reply: rep.clone(), oracle_used: tables[i].len(), unanswered: true });
+                }
+                continue;
             }
             out[i] = Some(ModelReply { reply: rep.clone(), oracle_used: tables[i].len(), unanswered: false });
         }
